@@ -1,5 +1,6 @@
 import Gallia.Proofs.Lemmas.VEcuGenuine
 import Gallia.Proofs.Lemmas.VEcuModel
+import Gallia.Proofs.Lemmas.VEcuSA
 import Gallia.Gen.C14Handlers
 /-
   C14 - the virtual ECU survives any request and the client accepts its answers.
@@ -269,6 +270,21 @@ theorem vecuRun_const (m : Model) (o : Orc) (hist : List (Nat × Bytes)) (ts : T
   induction hist generalizing ts with
   | nil => rfl
   | cons p rest ih => simp only [List.map_cons, vecuRun, Server.run, vecuHandleAt, ih]
+
+/-! ### SecurityAccess is C13's seed / key sequencing -/
+
+/-- on every request the typed handler equals C13's `rndHandler` wrapped around it, the seed being the oracle's
+    `random_payload()`: requestSeed answers with a fresh seed, sendKey is checked against the last SecurityAccess reply
+    (right level, identity key) - so C13's statements about `rndHandler` apply to the typed ECU -/
+theorem security_access_as_c13 (o : Orc) (st : SrvState) (b : Bytes) :
+    vecuHandler o st (mkReq b) = rndHandler (vecuHandler o) (fun _ _ => o.randomPayload 0) st (mkReq b) := by
+  cases hraw : (UdsReq.decode b).isRaw with
+  | true => simp [rndHandler, mkReq, hraw]
+  | false =>
+    have henc := enc_dec b
+    have hreq : mkReq b = ⟨UdsReq.encode (UdsReq.decode b), false⟩ := by simp [mkReq, henc, hraw]
+    rw [hreq]
+    exact vecuHandler_typed o st _ (dec_wf b) hraw (by rw [henc])
 
 /-! ### the session identifier is reported exactly -/
 
